@@ -65,8 +65,9 @@ def h_kernel(ctx, skel, skip_samples):
 
 
 def cases(tier):
+    skels = SKELS + (SK.random_names(8) if tier == "thorough" else [])
     return [Case(f"unary:{sk}:skip{int(s)}", h_kernel, dict(skel=sk, skip_samples=s))
-            for sk in SKELS for s in (True, False)]
+            for sk in skels for s in (True, False)]
 
 
 def run(tier, seed, t0):
